@@ -1,4 +1,5 @@
 import IpcModel.Lemmas.SideProof
+import IpcModel.TableScript
 /-!
 # C14 — a failed or nested send leaves no trace in later or enclosing messages
 
@@ -60,6 +61,56 @@ theorem C14_fail (osOk : Nat → Bool) (tx : Nat) (v : List Node) (tls : Tls) (e
     split at h
     · simp at h
     · rename_i hok; simp [hok]
+
+/-! ### the statement order of the real `send`, regenerated from `src/ipc.rs` on every run -/
+
+/-- **C14_send_script** — for the order of table operations the translator reads from `IpcSender::send` now
+(`Gen.sendScript`), whatever the value's `Serialize` impl pushes, whether it fails, whether the OS send fails, and
+whatever the enclosing tables hold: the script is executable; the thread-local tables afterwards are the tables before;
+the result is Ok iff both succeeded; the OS send is given exactly the pushes of this serialisation; and in every other
+case those pushes sit in a local of `send`, dropped when it returns — nothing is retained by the library. -/
+theorem C14_send_script {α β : Type} (o : TS.SerOutcome α β) (osOk : Bool) (tlsC : List α) (tlsR : List β) :
+    ∃ st, TS.runSend o osOk Gen.sendScript (TS.SendSt.init tlsC tlsR) = some st ∧
+      st.tlsC = tlsC ∧ st.tlsR = tlsR ∧ st.ret = some (o.ok && osOk) ∧
+      st.sent = (if o.ok && osOk then some (o.pushC, o.pushR) else none) ∧
+      st.mineC = some o.pushC ∧ st.mineR = some o.pushR := by
+  cases hok : o.ok <;> cases osOk <;> simp [TS.runSend, TS.sendStep, Gen.sendScript, TS.SendSt.init, hok]
+
+/-- **C14_script_agrees** — the recursive model `ipcSend` (nested and failing sends to any depth) has, at each level, exactly
+the behaviour of the regenerated script with "what the value's serialisation did" instantiated by the model's `ser`:
+same tables afterwards, same result. -/
+theorem C14_script_agrees (osOk : Nat → Bool) (tx : Nat) (v : List Node) (tls : Tls) (eff : Eff) :
+    ∃ st, TS.runSend ⟨(ser ⟨false⟩ osOk v ⟨[], []⟩ eff).2.1.chans, (ser ⟨false⟩ osOk v ⟨[], []⟩ eff).2.1.shms,
+                      (ser ⟨false⟩ osOk v ⟨[], []⟩ eff).1.isSome⟩ (osOk tx) Gen.sendScript (TS.SendSt.init tls.chans tls.shms) = some st ∧
+      (⟨st.tlsC, st.tlsR⟩ : Tls) = (ipcSend ⟨false⟩ osOk tx v tls eff).2.1 ∧
+      st.ret = some (ipcSend ⟨false⟩ osOk tx v tls eff).1 := by
+  obtain ⟨st, h1, h2, h3, h4, _⟩ := C14_send_script
+    (⟨(ser ⟨false⟩ osOk v ⟨[], []⟩ eff).2.1.chans, (ser ⟨false⟩ osOk v ⟨[], []⟩ eff).2.1.shms,
+      (ser ⟨false⟩ osOk v ⟨[], []⟩ eff).1.isSome⟩ : TS.SerOutcome Wire.Att Nat) (osOk tx) tls.chans tls.shms
+  refine ⟨st, h1, ?_, ?_⟩
+  · rw [C14_tables, h2, h3]
+  · rw [h4]
+    unfold ipcSend
+    generalize ser ⟨false⟩ osOk v ⟨[], []⟩ eff = q
+    obtain ⟨o, t, e⟩ := q
+    cases o with
+    | none => simp
+    | some b => simp only [Option.isSome_some, Bool.true_and]; split <;> simp_all
+
+/-- **C14_nested_receive** — a receive issued inside another value's deserialisation is self-contained: for the regenerated order
+of `OpaqueIpcMessage::to`, the enclosing decode's tables (`tlsC`, `tlsR` when the inner `to` is called) are exactly
+what they were when it returns, whichever attachments the inner decode took and whether it failed. -/
+theorem C14_nested_receive {α β : Type} (o : TS.DeOutcome) (tlsC msgC : List (Option α)) (tlsR msgR : List (Option β)) :
+    (TS.runTo o Gen.toScript ⟨tlsC, tlsR, msgC, msgR, none, none⟩).tlsC = tlsC ∧
+    (TS.runTo o Gen.toScript ⟨tlsC, tlsR, msgC, msgR, none, none⟩).tlsR = tlsR ∧
+    (TS.runTo o Gen.toScript ⟨tlsC, tlsR, msgC, msgR, none, none⟩).msgC = TS.takeAll msgC o.takeC := by
+  simp [TS.runTo, TS.toStep, Gen.toScript]
+
+/-- the order before the repair (`serialize_into(..)?` ahead of putting the tables back): a failing serialisation leaves
+its pushes in the thread-local table and loses the enclosing send's -/
+example : (TS.runSend (⟨[7], [], false⟩ : TS.SerOutcome Nat Nat) true
+      [.saveChans, .saveRegions, .serializeProp, .restoreChans, .restoreRegions, .osSend] (TS.SendSt.init [1, 2] [])).map (·.tlsC)
+    = some [7] := by decide
 
 /-! ### sensitivity: the pre-fix code (D1), and non-vacuity -/
 
